@@ -196,7 +196,12 @@ pub fn malicious(seed: u64, pl: &Pool, rep: &mut Report) {
     let rt = runtime(seed);
     rt.block_on(async {
         let mut rng = Rng::new(seed ^ 0xBAD);
-        let mut v = ServiceRig::start(&mut rng, ServiceCfg { mode: Mode::Ip4, local_enr_has_addr: true, ..Default::default() }).await;
+        // the requester's own max_nodes_response bounds the records it collects; the packet cap
+        // (15) must not depend on it
+        let vmax = *rng.pick(&[16usize, 16, 16, 64, 4]);
+        let mut v = ServiceRig::start(&mut rng, ServiceCfg { mode: Mode::Ip4, local_enr_has_addr: true, tweak: Box::new(move |b| {
+            b.max_nodes_response(vmax);
+        }) }).await;
         let r_sk = signing_key(&mut rng);
         let r_addr = v4(10, 0, 0, 78, 9000);
         let r_enr = build_enr(&r_sk, 2, EnrAddr::Socket(r_addr), None);
@@ -340,9 +345,9 @@ pub fn malicious(seed: u64, pl: &Pool, rep: &mut Report) {
             let more = v.take_handler_in();
             fail_others(&mut v, more, Some(&req_id)).await;
         }
-        let w = json!({"scenario_seed": seed.to_string(), "half": "malicious", "requested_distances": distances, "script": log, "completed_after_packets": completed_at});
+        let w = json!({"scenario_seed": seed.to_string(), "half": "malicious", "requested_distances": distances, "requester_max_nodes_response": vmax, "script": log, "completed_after_packets": completed_at});
         // Completion model for scripts with a constant total T: the request completes with the
-        // packet that reaches min(T, 15), or earlier once 16 records have been collected.
+        // packet that reaches min(T, 15), or earlier once the requester's max_nodes_response records have been collected.
         let model_complete: Option<usize> = if vary_totals {
             None
         } else {
@@ -350,7 +355,7 @@ pub fn malicious(seed: u64, pl: &Pool, rep: &mut Report) {
             let mut done = None;
             for (k, (total, recs, _)) in script.iter().enumerate().take(processed.len()) {
                 let n = k + 1;
-                if *total <= 1 || n as u64 >= (*total).min(15) || acc >= 16 {
+                if *total <= 1 || n as u64 >= (*total).min(15) || acc >= vmax {
                     done = Some(n);
                     break;
                 }
@@ -435,7 +440,7 @@ pub fn malicious(seed: u64, pl: &Pool, rep: &mut Report) {
                 rep.violation("C11:packet-after-completion-had-effect", "a NODES packet for an already completed request changed the ban list or surfaced records".into(), w.clone());
             }
         }
-        rep.fingerprint(&("mal", distances.clone(), npackets.min(20), base_total.min(20), off_seen, completed_at.is_some(), processed.len().min(20)));
+        rep.fingerprint(&("mal", distances.clone(), npackets.min(20), base_total.min(20), off_seen, completed_at.is_some(), processed.len().min(20), vmax));
         lookup.abort();
         if rep.want_sample() && processed.len() > 3 {
             rep.sample(w);
